@@ -312,12 +312,64 @@ def _comp_apply(dst):
     return CompToLoop.n
 
 
+# ---- default-if:  `if c: x = A` / `else: x = B`  (single assignments to the same plain name, B a constant or a plain name other than x,
+#      c not reading x)  ->  `x = B` / `if c: x = A`.   early-continue: a loop body that ENDS with `if c: A else: B`  ->
+#      `if c: A; continue` followed by B (nothing follows in the body, and the loop has no else clause that could see a break).
+class DefaultIf(ast.NodeTransformer):
+    n = 0
+
+    def visit_If(self, node):
+        self.generic_visit(node)
+        if len(node.body) == 1 and len(node.orelse) == 1 and all(isinstance(b, ast.Assign) and len(b.targets) == 1 and isinstance(b.targets[0], ast.Name)
+                                                                  for b in (node.body[0], node.orelse[0])):
+            a, b = node.body[0], node.orelse[0]
+            x = a.targets[0].id
+            if b.targets[0].id == x and (isinstance(b.value, ast.Constant) or (isinstance(b.value, ast.Name) and b.value.id != x)) and \
+                    not any(isinstance(y, ast.Name) and y.id == x for y in ast.walk(node.test)) and \
+                    not any(isinstance(y, ast.Name) and y.id == x for y in ast.walk(a.value)):
+                DefaultIf.n += 1
+                return [b, ast.If(test=node.test, body=[a], orelse=[])]
+        return node
+
+
+class EarlyContinue(ast.NodeTransformer):
+    n = 0
+
+    def visit_For(self, node):
+        self.generic_visit(node)
+        last = node.body[-1] if node.body else None
+        if isinstance(last, ast.If) and last.orelse and not node.orelse and not (len(last.orelse) == 1 and isinstance(last.orelse[0], ast.If)) and \
+                not any(isinstance(y, (ast.Break, ast.Continue, ast.Return)) for st in last.body + last.orelse for y in ast.walk(st)):
+            EarlyContinue.n += 1
+            node.body = node.body[:-1] + [ast.If(test=last.test, body=last.body + [ast.Continue()], orelse=[])] + last.orelse
+        return node
+
+
+def _simple_apply(dst, cls):
+    cls.n = 0
+    for root, _d, files in os.walk(os.path.join(dst, core.PKG)):
+        for f in files:
+            if f.endswith(".py"):
+                path = os.path.join(root, f)
+                src = open(path, encoding="utf-8").read()
+                tree = cls().visit(ast.parse(src))
+                ast.fix_missing_locations(tree)
+                new = "\n".join(l for l in src.split("\n")[:3] if l.startswith("#")) + "\n" + ast.unparse(tree) + "\n"
+                compile(new, path, "exec")
+                open(path, "w", encoding="utf-8").write(new)
+    return cls.n
+
+
 _old_apply3 = apply
 
 
 def apply(dst, mode):   # noqa: F811
     if mode == "comp-to-loop":
         return _comp_apply(dst)
+    if mode == "default-if":
+        return _simple_apply(dst, DefaultIf)
+    if mode == "early-continue":
+        return _simple_apply(dst, EarlyContinue)
     return _old_apply3(dst, mode)
 
 
